@@ -65,6 +65,7 @@ def run_fault(params, ch):
         ok = False
         while passes < len(params['faults']) + 2:
             passes += 1
+            calls0 = s.env.calls
             r = s.op(('connect', dict(KW)))
             results = [r]
             del s.gens[:]
@@ -93,6 +94,11 @@ def run_fault(params, ch):
                 ok = True
                 break
             raised.append((len(results) - 1, results[-1][1] if results[-1][0] == 'exc' else results[-1][0]))
+            if not any(calls0 <= int(k) < s.env.calls for k, _kind in params['faults']) and not viol:
+                # no fault was injected during this pass: the device is healthy and the object was (re)connected, so the failure comes
+                # from state that survived the broken session
+                viol.append({'msg': 'pass %d failed at call %d with %r although no fault was injected during it (faults %r fired in earlier passes): state of the broken session survived the reconnect'
+                                    % (passes, len(results) - 1, results[-1][:3], params['faults'])})
             if any(lk.values()) or results[-1][0] in ('hang', 'watchdog', 'deadlock'):
                 break
             if params['close']:
